@@ -237,6 +237,7 @@ MUTANTS["C19"] = [
     ("file-diff-empty-for-reordered-lines", "annet/diff.py", "        new_lines = new.splitlines() if new else []\n        context = max(", "        new_lines = new.splitlines() if new else []\n        if sorted(old_lines) == sorted(new_lines):\n            return []\n        context = max("),
     ("prio-read-from-the-class", "annet/generators/__init__.py", "        prio=gen.prio,\n        perf=pm.last_result,\n        is_safe=gen.is_safe(device),", "        prio=getattr(gen.__class__, \"prio\", 100),\n        perf=pm.last_result,\n        is_safe=gen.is_safe(device),"),
     ("reload-none-not-defaulted", "annet/generators/entire.py", '        ret = self.reload(device) or ""', "        ret = self.reload(device)"),
+    ("entire-support-verdict-remembered-per-host-for-all-generators", "annet/generators/entire.py", "    def supports_device(self, device):\n        return bool(self.path(device))", "    _vf_supported = {}\n\n    def supports_device(self, device):\n        if device.hostname not in self._vf_supported:\n            self._vf_supported[device.hostname] = bool(self.path(device))\n        return self._vf_supported[device.hostname]"),
 ]
 
 MUTANTS["C10"] = [
